@@ -120,7 +120,8 @@ def report_bad(ck, bad, keep_trace):
         line, reasons, e = items[0]
         desc = (f"{len(items)} event(s); first: trace line {line}, reasons {reasons}, "
                 f"event {json.dumps({k: v for k, v in e.items() if k != 'err'})[:500]} err={str(e.get('err', ''))[:600]}")
-        ck.violation(key, desc, {"w": e.get("w"), "b": e.get("b"), "lv": e.get("lv"), "level": e.get("level"),
+        ck.violation(key, desc, {"tier": ck.tier, "reopen": bool(e.get("reopened")), "tmp": bool(e.get("tmp")),
+                                 "w": e.get("w"), "b": e.get("b"), "lv": e.get("lv"), "level": e.get("level"),
                                  "parent_b": e.get("parent_b"), "fault": e if e["event"] == "fault" else None,
                                  "reasons": reasons, "count": len(items), "trace": keep_trace})
     return groups
@@ -210,7 +211,8 @@ def run(tier, replay=None):
             args = None
         else:
             rfile = os.path.join(WORK, "c10_replay_in.json")
-            spec = {"w": rp["w"]}
+            spec = {"w": rp["w"], "reopen": bool(rp.get("reopen")), "tmp": bool(rp.get("tmp"))}
+            args[3] = rp.get("tier", tier)
             if rp.get("fault"):
                 spec["fault"] = 1
             else:
